@@ -246,11 +246,23 @@ def r05_4_write_time_additions(chk):
     w = c14.write_path_stores(chk)
     parts = [s for s in w.stores if s.field in ("value", "units")]
     chk.floor("write-time stores into attribute parts", len({s.key for s in parts}), 8)
+    # an attribute whose value can legitimately be falsy (numbers: 0; status; date-times) must be tested with
+    # `is None`; for list / text valued parts "empty" is as good as unset
+    model = Model(chk.ix)
+    falsy_ok = {}
+    for d in model.decls:
+        names = {c.name for c in d.attr_cls.mro()}
+        falsy_ok[(d.item_cls.name, d.field)] = bool(names & {"DimensionAttribute", "TextAttribute", "IdentAttribute",
+                                                          "EFLRAttribute", "EFLROrTextAttribute"})
     seen = set()
     for s in parts:
         target = ("attr", s.base, s.field)
+        bits = s.key.split(".")
+        owner = chk.ix.find_class(bits[0])
+        fld = bits[-2] if len(bits) >= 3 else ""
+        loose = s.field == "units" or any(falsy_ok.get((c.name, fld), False) for c in (owner.mro() if owner else []))
         unset = [l for l in s.pc if (l[0] == "cmp" and l[1] == "is" and l[2] == target and l[3] == ("const", None))
-                 or l == ("not", target)]
+                 or (loose and l == ("not", target))]
         k = (s.key, bool(unset))
         if k in seen:
             continue
@@ -370,3 +382,8 @@ def r05_7_setters(chk):
     raw_member = [c for c, t in alts if t == v and member in c]
     chk.require(bool(as_value) and not raw_member, "R05.7", "enum-members-stored-as-their-value",
                 "enum members accepted by the enum converters are not replaced by their string value", conv[0].where)
+    from ..terms import NONE
+    other = [(c, t) for c, t in alts if t not in (v, A(v, "value"), NONE)]
+    chk.require(not other, "R05.7", "enum-converter-returns-the-given-text",
+                f"the enum converter can return `{[pp(t)[:50] for _, t in other[:2]]}`: a text the user did not give "
+                f"(only the given value, an enum member's own value, or None may come back)", conv[0].where)
